@@ -404,6 +404,54 @@ pub fn run(ctx: &Ctx) -> (Spec, Report) {
         rep.merge(r);
         let _ = std::fs::remove_dir_all(&scratch);
     }
+    // a source file that is a symbolic link to a regular file elsewhere (a shared wire-types file linked into two crates):
+    // it is a visible, non-ignored source file with or without --follow-links
+    {
+        let root = ctx.scratch("linked-file");
+        let cli = ctx.cli.clone();
+        let _ = std::fs::create_dir_all(root.join("shared"));
+        let _ = std::fs::create_dir_all(root.join("src_root/app/src/nested"));
+        std::fs::write(root.join("shared/wire.rs"), "#[typeshare]\npub struct Qlinkedone { pub a: u8, #[serde(skip)] pub qhiddenfield: u8 }\npub struct Qnotannotated { pub b: u8 }\npub mod inner { #[typeshare]\npub enum Qlinkedtwo { A, B } }\n").unwrap();
+        std::fs::write(root.join("src_root/app/src/lib.rs"), "#[typeshare]\npub struct Qordinary { pub c: u8 }\n").unwrap();
+        let _ = std::os::unix::fs::symlink("../../../shared/wire.rs", root.join("src_root/app/src/wire.rs"));
+        let _ = std::os::unix::fs::symlink(root.join("shared/wire.rs"), root.join("src_root/app/src/nested/absolute_link.rs"));
+        let mut k = 0;
+        for lang in ALL_LANGS {
+            for multi in [false, true] {
+                if multi && matches!(lang, LangId::Scala | LangId::Go) {
+                    continue;
+                }
+                for follow in [false, true] {
+                    k += 1;
+                    let cfg = LangCfg::basic(lang);
+                    let out = if multi { root.join(format!("out{k}")) } else { root.join(format!("out{k}.{}", lang.ext())) };
+                    let mut args = crate::sut::cli_args(lang, &cfg, multi, &out, &["src_root"]);
+                    if follow {
+                        args.insert(0, "--follow-links".into());
+                    }
+                    let o = crate::sut::run_bin(crate::sut::BinRun { cli: &cli, args: args.clone(), env: vec![], cwd: &root, strace: None, wall_limit: std::time::Duration::from_secs(30) });
+                    rep.eval(1);
+                    rep.count("cli_runs", 1);
+                    rep.cell(format!("linked-file|{}|multi={multi}|follow={follow}", lang.name()));
+                    if !o.ok() {
+                        rep.inconclusive("cli-run-failed-on-linked-file", json!({"language": lang.name(), "stderr": o.stderr.chars().take(300).collect::<String>()}));
+                        continue;
+                    }
+                    let text: String = if multi { crate::sut::read_dir_files(&out).values().map(|b| String::from_utf8_lossy(b).to_lowercase()).collect::<Vec<_>>().join("\n") } else { std::fs::read_to_string(&out).unwrap_or_default().to_lowercase() };
+                    for (needle, must) in [("qordinary", true), ("qlinkedone", true), ("qlinkedtwo", true), ("qnotannotated", false), ("qhiddenfield", false)] {
+                        if text.contains(needle) != must {
+                            rep.violate(
+                                format!("C03|cli|linked-source-file|{}", if must { "annotated-item-missing" } else { "unshared-element-generated" }),
+                                format!("{} ({}, follow-links={follow}): `{needle}` {} the output although the file it is in is {}", lang.name(), if multi { "folder" } else { "single file" }, if must { "is missing from" } else { "appears in" }, if must { "a source file of the crate (through a symbolic link)" } else { "not shared" }),
+                                json!({"language": lang.name(), "multi_file": multi, "args": args, "stderr": o.stderr.chars().take(500).collect::<String>(), "output": text.chars().take(1500).collect::<String>()}),
+                            );
+                        }
+                    }
+                }
+            }
+        }
+        let _ = std::fs::remove_dir_all(&root);
+    }
     // the same file reached twice from the command line (a directory named twice, a directory and one of its
     // sub-directories): still one foreign type per annotated item
     {
@@ -460,7 +508,7 @@ pub fn run(ctx: &Ctx) -> (Spec, Report) {
     }
     let spec = Spec {
         level: "exploration",
-        rule: format!("{n} generated files (Scala and Kotlin under dotted / single-segment / two-segment / absent packages) mixing annotated and un-annotated items at module depth 0-4 and inside function bodies / anonymous const blocks, a quarter of them with two structs of one Rust identifier in two modules (different serde names), #[typeshare] / #[typeshare::typeshare] / with arguments, serde(skip) / typeshare(skip) on random subsets of fields, variants and struct-variant fields, any attribute order, five source layouts (rustfmt-like, attribute behind another attribute or a block comment on the same line, all attributes and the item on one line, CRLF + tabs), x up to 6 languages; definitions and members are attributed to source elements by unique stems and compared with the generator's item list (count, kind, order); decoy and skipped stems are searched over the whole output; plus the real binary with the input named twice (same directory twice, a directory and one of its sub-directories, in both orders): byte-identical to naming it once; plus 'cannot be generated' cells (const / union / DateTime per backend; through the binary a tuple struct / union / u64 field in one of three files of a crate, all six delivery orders, single file and folder): error or definition, never success without definition; distinct = (language, item kind, module depth, annotation spelling) and (language, struct-variant, has-skipped)"),
+        rule: format!("{n} generated files (Scala and Kotlin under dotted / single-segment / two-segment / absent packages) mixing annotated and un-annotated items at module depth 0-4 and inside function bodies / anonymous const blocks, a quarter of them with two structs of one Rust identifier in two modules (different serde names), #[typeshare] / #[typeshare::typeshare] / with arguments, serde(skip) / typeshare(skip) on random subsets of fields, variants and struct-variant fields, any attribute order, five source layouts (rustfmt-like, attribute behind another attribute or a block comment on the same line, all attributes and the item on one line, CRLF + tabs), x up to 6 languages; definitions and members are attributed to source elements by unique stems and compared with the generator's item list (count, kind, order); decoy and skipped stems are searched over the whole output; plus the real binary with the input named twice (same directory twice, a directory and one of its sub-directories, in both orders): byte-identical to naming it once; plus a crate with source files that are symbolic links to a file outside the input directory (relative and absolute link, with and without --follow-links); plus 'cannot be generated' cells (const / union / DateTime per backend; through the binary a tuple struct / union / u64 field in one of three files of a crate, all six delivery orders, single file and folder): error or definition, never success without definition; distinct = (language, item kind, module depth, annotation spelling) and (language, struct-variant, has-skipped)"),
         assumptions: vec!["stems (q + 5 letters, no other 'q' in generated words) identify source elements after case conversion".into()],
         exhaustive: None,
     };
